@@ -50,6 +50,7 @@ TNewtype(d) == [k |-> "newtype", of |-> d]
 TUnitEnum(vs) == [k |-> "unitenum", vs |-> vs]
 TEnum(vs) == [k |-> "enum", vs |-> vs]                                         \* variant: [n |-> name cps, shape |-> "unit"|"newtype"|"tuple"|"struct", of |-> ...]
 TOpaque == [k |-> "opaque"]
+TIgnored == [k |-> "ignored"]      \* serde::de::IgnoredAny: every well-formed value is accepted
 
 \* ---- Accepts ----
 KeyBytes(s) == s     \* a key made of ASCII digits / sign: its code points are its bytes
@@ -73,6 +74,7 @@ StructFromSeq(d, v) ==
   /\ \A f \in 1..Len(d.fields) : IF f <= Len(v.e) THEN Accepts(d.fields[f].d, v.e[f]) ELSE ~d.fields[f].seqreq
 Accepts(d, v) ==
   CASE d.k = "bool"   -> v.t = "bool"
+    [] d.k = "ignored" -> TRUE
     [] d.k = "int"    -> v.t = "num" /\ IntAccepts(d.bits, d.signed, v.lit) = "yes"
     [] d.k = "f64"    -> v.t = "num" /\ LitIsFinite(v.lit)
     [] d.k = "char"   -> v.t = "str" /\ Len(v.s) = 1
@@ -113,7 +115,9 @@ Types == [ bool |-> TBool, u8 |-> TInt(8, FALSE), i8 |-> TInt(8, TRUE), u16 |-> 
            map_u64_u8 |-> TMap(TInt(64, FALSE), TInt(8, FALSE)), map_i128_u8 |-> TMap(TInt(128, TRUE), TInt(8, FALSE)), map_bool_u8 |-> TMap(TBool, TInt(8, FALSE)),
            map_char_u8 |-> TMap(TChar, TInt(8, FALSE)), map_unitenum_u8 |-> TMap(UnitE, TInt(8, FALSE)),
            struct_ab |-> SAb, struct_deny |-> SDeny, newtype_i32 |-> TNewtype(TInt(32, TRUE)), unit_enum |-> UnitE, enum_e |-> EnumE, vec_enum_e |-> TSeq(EnumE),
-           untagged |-> TOpaque, internal |-> TOpaque, adjacent |-> TOpaque, flatten |-> TOpaque, borrow |-> TOpaque, f32 |-> TOpaque, struct_nested |-> TOpaque, bytes |-> TOpaque ]
+           untagged |-> TOpaque, internal |-> TOpaque, adjacent |-> TOpaque, flatten |-> TOpaque, borrow |-> TOpaque, f32 |-> TOpaque, struct_nested |-> TOpaque, bytes |-> TOpaque,
+           ignored |-> TIgnored, vec_ignored |-> TSeq(TIgnored), map_string_ignored |-> TMap(TString, TIgnored),
+           vec_bytebuf |-> TOpaque, struct_bytes |-> TOpaque, tup_bytes |-> TOpaque, map_string_bytebuf |-> TOpaque ]
 
 \* ---- Shapes ----
 Scalars == { VNull, VBool(TRUE), VNum(NatLit(0)), VNum(NatLit(1)), VNum(NatLit(255)), VNum(NatLit(256)), VNum(NegLit(1)), VNum(NegLit(129)),
@@ -128,10 +132,11 @@ IntBounds(bits, signed) ==
 RECURSIVE Match(_)
 KeyMatch(kd) == CASE kd.k = "string" -> {N.a, N.e} [] kd.k = "int" -> {N.one} \cup (IF kd.signed THEN {N.m1} ELSE {})
                   [] kd.k = "bool" -> {N.true} [] kd.k = "char" -> {N.x} [] kd.k = "unitenum" -> {kd.vs[1]} [] OTHER -> {}
-KeyNear(kd) == {N.a, N.one, N.true, N.big, N.Aa, N.e, <<48, 49>>, <<43, 49>>, <<32, 49>>, <<49, 46, 48>>}
+KeyNear == {N.a, N.one, N.true, N.big, N.Aa, N.e, <<48, 49>>, <<43, 49>>, <<32, 49>>, <<49, 32>>, <<49, 46, 48>>, <<45>>, <<49, 101, 49>>, <<>>, <<45, 49>>, <<9, 49>>}
 AnyOf(S) == CHOOSE x \in S : TRUE
 Match(d) ==
   CASE d.k = "bool" -> {VBool(TRUE)}
+    [] d.k = "ignored" -> {VArr(<<VNum(NatLit(7)), VNull>>)}
     [] d.k = "int" -> {VNum(NatLit(7))}
     [] d.k = "f64" -> {VNum(<<49, 46, 53>>), VNum(NatLit(3))}
     [] d.k = "char" -> {VStr(N.x)}
@@ -159,7 +164,7 @@ Mutations(v) ==
                       \cup {VObj(Append(v.m, <<N.zz, VNum(NatLit(1))>>))}
                       \cup (IF v.m = <<>> THEN {} ELSE {VObj(Append(v.m, v.m[1]))})
                       \cup {VObj([v.m EXCEPT ![i] = <<v.m[i][1], s>>]) : i \in 1..Len(v.m), s \in SmallSub}
-                      \cup {VObj([v.m EXCEPT ![i] = <<kk, v.m[i][2]>>]) : i \in 1..Len(v.m), kk \in {N.zz, N.one, N.big, <<48, 49>>, <<43, 49>>, N.false, N.Bb, N.New}}
+                      \cup {VObj([v.m EXCEPT ![i] = <<kk, v.m[i][2]>>]) : i \in 1..Len(v.m), kk \in {N.zz, N.one, N.big, <<48, 49>>, <<43, 49>>, N.false, N.Bb, N.New} \cup KeyNear}
     [] OTHER -> {}
 Shapes(d) ==
   LET ms == Match(d) IN
